@@ -191,4 +191,6 @@ func main() {
 			}
 		}
 	}
+	// large.go: inputs around k·64 KiB, 1 MiB and k·4 KiB (own PRNG stream)
+	largeSizes(o, hlib.NewRng(*hlib.FlagSeed, "c04/sizes"))
 }
